@@ -515,7 +515,7 @@ func (m *Memory) FindLatest(
 			}
 			// Inactive
 			for _, state := range query.Inactive {
-				if am.IsActiveTick(t.MTimeTracked[mach.Index1(state)]) {
+				if am.IsActiveTick(t.MTimeTracked[m.Index1(state)]) {
 					continue records
 				}
 			}
@@ -632,6 +632,7 @@ func (m *Memory) Match(
 
 	// stop GC and query
 	m.gcMx.RLock()
+	defer m.gcMx.RUnlock()
 	var ret []*amhist.MemoryRecord
 	err := m.Db.View(func(tx *bbolt.Tx) error {
 		b := tx.Bucket([]byte(m.Mach.Id()))
@@ -640,7 +641,6 @@ func (m *Memory) Match(
 
 		return nil
 	})
-	m.gcMx.RUnlock()
 
 	// err
 	if ctx.Err() != nil || m.Ctx.Err() != nil {
